@@ -28,9 +28,9 @@ type endpoint struct {
 
 func keyKinds(op string) []string {
 	if op == "GetResponseSigningKey" || op == "GetMetadataSigningKey" {
-		return []string{"error", "nilrecord", "nokey", "nocert", "emptycert"}
+		return append(append([]string{}, idp.ErrorKinds...), "nilrecord", "nokey", "nocert", "emptycert")
 	}
-	return []string{"error"}
+	return idp.ErrorKinds
 }
 
 func endpoints() []endpoint {
@@ -250,6 +250,6 @@ func Run(dir, tier string, seed int64) error {
 		_ = ref
 	}
 	run.Res.Exhaustive = true
-	run.Res.Rule = "for each of 14 endpoint configurations (SSO; callback POST / Redirect with usable and unusable signature algorithm; logout; attribute query with usable / unusable algorithm; metadata unsigned / signed / signed with unusable algorithm; certificate; readiness; health) the storage operations of a fault-free request are recorded, then every (operation, call occurrence, fault kind) is injected singly (thorough: also every pair): returned error for all operations, and for the two signing-key getters additionally nil record, key without certificate, certificate without key, empty certificate. Oracle: error reply, no Success, no user data, no metadata document, no CreateAuthRequest after the fault, no panic. The metadata / certificate / readiness replies are also compared with the Coq model; the other endpoints' models are compared under faults in C01, C08, C12, C13. distinct = (endpoint, fault, #faults, reply kind, status)."
+	run.Res.Rule = "for each of 14 endpoint configurations (SSO; callback POST / Redirect with usable and unusable signature algorithm; logout; attribute query with usable / unusable algorithm; metadata unsigned / signed / signed with unusable algorithm; certificate; readiness; health) the storage operations of a fault-free request are recorded, then every (operation, call occurrence, fault kind) is injected singly (thorough: also every pair): returned error in five shapes (opaque, wrapping context.Canceled / context.DeadlineExceeded, io.EOF, a sentinel value) for all operations, and for the two signing-key getters additionally nil record, key without certificate, certificate without key, empty certificate. Oracle: error reply, no Success, no user data, no metadata document, no CreateAuthRequest after the fault, no panic. The metadata / certificate / readiness replies are also compared with the Coq model; the other endpoints' models are compared under faults in C01, C08, C12, C13. distinct = (endpoint, fault, #faults, reply kind, status)."
 	return run.Finish()
 }
